@@ -3,6 +3,7 @@ kind combination and discharge them."""
 import ast
 import hashlib
 import os
+import re
 import time
 import traceback
 
@@ -213,7 +214,10 @@ def call_with_params(I, f, args):
         if n in args:
             kw[n] = args[n]
     if a.vararg and a.vararg.arg in args:
-        pos.extend(I.iterate(args[a.vararg.arg]))
+        if isinstance(args[a.vararg.arg], SymList):
+            pos.append(StarSym(args[a.vararg.arg]))
+        else:
+            pos.extend(I.iterate(args[a.vararg.arg]))
     for p in a.kwonlyargs:
         if p.arg in args:
             kw[p.arg] = args[p.arg]
@@ -434,11 +438,16 @@ def apply_contract_at_call(I, c, f, args, kwargs, node):
     """modular call: the callee is represented by its contract, not its body"""
     st = I.st
     bound = I.bind_args(f, args, kwargs)
+    unbound_ghosts = []
     for gname, gspec in c.params.items():
         if gname not in bound:
-            # specification-only (ghost) parameter of the callee: the caller's ghost of the same name, else arbitrary
+            # specification-only (ghost) parameter of the callee: the caller's ghost of the same name; without one the
+            # clauses about it say nothing the caller could use and are left out
             gv = I.config.get('ghosts', {}).get(gname)
-            bound[gname] = gv if gv is not None else gspec.alternatives()[0].make(I, st.fresh_name('ghost_' + gname))
+            if gv is not None:
+                bound[gname] = gv
+            else:
+                unbound_ghosts.append(gname)
     genv = dict(c.spec_globals)
     env = Env(dict(bound), pyglobals=genv)
     saved_old = I.config.get('old_env')
@@ -476,6 +485,8 @@ def apply_contract_at_call(I, c, f, args, kwargs, node):
         res = rs.make(I, st.fresh_name('ret_' + c.qualname.replace('.', '_')))
         env.vars['result'] = res
         for cl in c.ensures:
+            if any(re.search(r'\b' + re.escape(g) + r'\b', cl.expr) for g in unbound_ghosts):
+                continue
             # kept out of the feasibility solver (definitional facts about the result; feasibility
             # is over-approximated, every VC still carries them)
             st.assume(eval_clause(I, cl.expr, env, assumed=True), lazy=not c.eager_ensures)
@@ -483,10 +494,6 @@ def apply_contract_at_call(I, c, f, args, kwargs, node):
         return res
     finally:
         I.config['old_env'] = saved_old
-
-
-def exec_loop_with_invariant(I, node, env, inv, qn, k):
-    raise Unsupported("loop invariants for while loops: not implemented yet")
 
 
 class _PathEnd(Exception):
@@ -501,11 +508,125 @@ def _assigned_names(body):
     return out
 
 
+def _loop_inv_truth(I, env, clause):
+    def inv_truth(i_val=None, assumed=False):
+        extra = dict(I.config.get('ghosts', {}))
+        if i_val is not None:
+            extra['__i'] = i_val
+        e = Env(extra, parent=env, pyglobals=I.config['old_env'].pyglobals)
+        return eval_clause(I, clause, e, assumed=assumed)
+    return inv_truth
+
+
+def _loop_havoc(I, body, env, inv, skip=()):
+    """everything an iteration may change gets an arbitrary value of its kind: locals assigned in the body, locals
+    named in inv['havoc'] (name -> kind; needed for lists / objects the body mutates), heap locations named in
+    inv['modifies'] ('local.field' -> kind).  The declarations are checked by the frame obligation of the body."""
+    st = I.st
+    specs = inv.get('havoc', {})
+    # names re-bound in the body that provably keep denoting the same object (x += y with __iadd__ returning x):
+    # not havocked; the claim is the obligation loop<k>.same_object.<name>
+    same = set(inv.get('same_object', ()))
+    modified = [n for n in _assigned_names(body) if n not in skip and n not in same]
+    for n in specs:
+        if n not in modified:
+            modified.append(n)
+    for name in modified:
+        ok, cur = env.lookup(name)
+        if not ok:
+            continue        # first assigned inside the loop: no value flows in
+        if name in specs:
+            env.vars[name] = specs[name].make(I, st.fresh_name('hv_' + name))
+        elif is_intlike(cur) and not isinstance(cur, (bool, SBool)):
+            env.vars[name] = SInt(st.fresh_int('hv_' + name))
+        elif isinstance(cur, (bool, SBool)):
+            env.vars[name] = SBool(st.fresh_bool('hv_' + name))
+        elif is_strlike(cur):
+            env.vars[name] = SStr([Sq(st.fresh_str('hv_' + name))])
+        else:
+            raise Unsupported(f"loop invariant: local '{name}' of kind {kind_of(cur)} changes in the loop; "
+                              f"its kind must be declared in the invariant's 'havoc'")
+    heap_mod = inv.get('modifies', {})
+    for path, spec in heap_mod.items():
+        oname, field = path.split('.', 1)
+        ok, obj = env.lookup(oname)
+        if not ok or not isinstance(obj, SObj):
+            raise Unsupported(f"loop invariant: modified location {path} is not a field of a local object")
+        obj.fields[field] = spec.make(I, st.fresh_name('hv_' + field))
+    return modified, heap_mod
+
+
+def _loop_snapshot(env):
+    visible = {}
+    e = env
+    while e is not None:
+        for nm, val in e.vars.items():
+            visible.setdefault(nm, val)
+        e = e.parent
+    memo = {}
+    return visible, {nm: deep_copy(val, memo) for nm, val in visible.items()}
+
+
+def _loop_frame_vcs(I, env, visible, before, modified, heap_mod, k, qn, node, same_object=()):
+    st = I.st
+    for nm in same_object:
+        ok, val = env.lookup(nm)
+        st.add_vc(f"loop{k}.same_object.{nm}", 'frame', bool(ok and nm in visible and identical(visible[nm], val) is True),
+                  {'level': 'sup', 'function': qn, 'line': node.lineno})
+    for nm, old_val in before.items():
+        if nm in modified:
+            continue
+        ok, val = env.lookup(nm)
+        if not ok:
+            continue
+        fields = [m.split('.', 1)[1] for m in heap_mod if m.startswith(nm + '.')]
+        a, b = old_val, val
+        if fields and isinstance(a, SObj) and isinstance(b, SObj):
+            same = zand(set(a.fields) - set(fields) == set(b.fields) - set(fields),
+                        *[frame_equal(I, a.fields[f2], b.fields[f2], set()) for f2 in a.fields
+                          if f2 not in fields and f2 in b.fields])
+        else:
+            same = frame_equal(I, a, b)
+        if same is not True:
+            st.add_vc(f"loop{k}.frame.{nm}", 'frame', same, {'level': 'sup', 'function': qn, 'line': node.lineno,
+                                                              'except': fields})
+    st.add_vc(f"loop{k}.frame", 'frame', True, {'level': 'sup', 'function': qn, 'line': node.lineno})
+
+
+def exec_loop_with_invariant(I, node, env, inv, qn, k):
+    """`while <test>` verified with an inductive invariant (partial correctness: termination is not an obligation).
+    Obligations: loop<k>.inv_entry, loop<k>.inv_preserved, loop<k>.frame*; the code behind the loop runs from an
+    arbitrary state with invariant and not test (or from the state of a `break`)."""
+    from .interp import _Break, _Continue
+    st = I.st
+    note = "termination of loops verified with an invariant is not an obligation (partial correctness)"
+    if note not in st.assumed:
+        st.assumed.append(note)
+    inv_truth = _loop_inv_truth(I, env, inv['inv'])
+    st.add_vc(f"loop{k}.inv_entry", 'invariant', inv_truth(), {'level': 'sup', 'function': qn, 'line': node.lineno})
+    modified, heap_mod = _loop_havoc(I, node.body, env, inv)
+    st.assume(inv_truth(assumed=True))
+    c = I.truth(I.eval(node.test, env))
+    if I.branch(c):
+        visible, before = _loop_snapshot(env)
+        try:
+            I.exec_block(node.body, env)
+        except _Continue:
+            pass
+        except _Break:
+            return
+        st.add_vc(f"loop{k}.inv_preserved", 'invariant', inv_truth(), {'level': 'sup', 'function': qn, 'line': node.lineno})
+        _loop_frame_vcs(I, env, visible, before, modified, heap_mod, k, qn, node, inv.get('same_object', ()))
+        raise _PathEnd()
+    I.exec_block(node.orelse, env)
+
+
 def exec_for_with_invariant(I, node, env, inv, qn, k):
     """`for <target> in <list of symbolic length>` verified with an inductive invariant.
-    inv = {'inv': expression over the locals and the index `__i` (number of completed iterations)}
-    Generated obligations:  loop<k>.inv_entry  (holds for __i = 0),  loop<k>.inv_preserved  (one arbitrary iteration);
-    the code after the loop is executed from an arbitrary state satisfying the invariant with __i = len."""
+    inv = {'inv': expression over the locals and the index `__i` (number of completed iterations), ...}
+    Obligations:  loop<k>.inv_entry  (holds for __i = 0),  loop<k>.inv_preserved  (one arbitrary iteration),
+    loop<k>.frame*;  the code after the loop is executed from an arbitrary state satisfying the invariant with
+    __i = len."""
     from .interp import _Break, _Continue
     from . import models
     st = I.st
@@ -516,40 +637,10 @@ def exec_for_with_invariant(I, node, env, inv, qn, k):
         L, start, enum = itv, 0, False
     else:
         raise Unsupported("loop invariant on a loop over a concrete-length container")
-    genv = env.pyglobals
-    clause = inv['inv']
-
-    def inv_truth(i_val, assumed=False):
-        e = Env(dict(I.config.get('ghosts', {}), __i=i_val), parent=env, pyglobals=I.config['old_env'].pyglobals)
-        return eval_clause(I, clause, e, assumed=assumed)
-
-    # 1. entry
+    inv_truth = _loop_inv_truth(I, env, inv['inv'])
     st.add_vc(f"loop{k}.inv_entry", 'invariant', inv_truth(0), {'level': 'sup', 'function': qn, 'line': node.lineno})
-    # 2. havoc everything the body assigns (same kinds), pick an arbitrary number of completed iterations
-    modified = _assigned_names(node.body)
     tnames = [n.id for n in ast.walk(node.target) if isinstance(n, ast.Name)]
-    for name in modified:
-        if name in tnames:
-            continue
-        ok, cur = env.lookup(name)
-        if not ok:
-            continue        # first assigned inside the loop: no value flows in
-        if is_intlike(cur) and not isinstance(cur, (bool, SBool)):
-            env.vars[name] = SInt(st.fresh_int('hv_' + name))
-        elif isinstance(cur, (bool, SBool)):
-            env.vars[name] = SBool(st.fresh_bool('hv_' + name))
-        elif is_strlike(cur):
-            env.vars[name] = SStr([Sq(st.fresh_str('hv_' + name))])
-        else:
-            raise Unsupported(f"loop invariant: cannot havoc local '{name}' of kind {kind_of(cur)}")
-    # heap locations the loop may change (declared; the declaration is checked by the frame obligation below)
-    heap_mod = inv.get('modifies', {})
-    for path, spec in heap_mod.items():
-        oname, field = path.split('.', 1)
-        ok, obj = env.lookup(oname)
-        if not ok or not isinstance(obj, SObj):
-            raise Unsupported(f"loop invariant: modified location {path} is not a field of a local object")
-        obj.fields[field] = spec.make(I, st.fresh_name('hv_' + field))
+    modified, heap_mod = _loop_havoc(I, node.body, env, inv, skip=tnames)
     zi = st.fresh_int('it')
     st.assume(zi >= 0)
     in_loop = st.fresh_bool('in_loop')
@@ -557,15 +648,7 @@ def exec_for_with_invariant(I, node, env, inv, qn, k):
         # an arbitrary iteration
         st.assume(zi < L.n)
         st.assume(inv_truth(SInt(zi), assumed=True))
-        # frame of the body: everything reachable from the locals, except what is declared modified
-        visible = {}
-        e = env
-        while e is not None:
-            for nm, val in e.vars.items():
-                visible.setdefault(nm, val)
-            e = e.parent
-        memo = {}
-        before = {nm: deep_copy(val, memo) for nm, val in visible.items()}
+        visible, before = _loop_snapshot(env)
         elem = models.symlist_elem(I, L, zi)
         I.assign(node.target, (mk_int(zi + start), elem) if enum else elem, env)
         try:
@@ -576,21 +659,7 @@ def exec_for_with_invariant(I, node, env, inv, qn, k):
             return          # leaves the loop: the code behind it runs from the current state
         st.add_vc(f"loop{k}.inv_preserved", 'invariant', inv_truth(mk_int(zi + 1)),
                   {'level': 'sup', 'function': qn, 'line': node.lineno})
-        for nm, val in visible.items():
-            if nm in modified or nm in tnames:
-                continue
-            fields = [m.split('.', 1)[1] for m in heap_mod if m.startswith(nm + '.')]
-            a, b = before[nm], val
-            if fields and isinstance(a, SObj) and isinstance(b, SObj):
-                same = zand(set(a.fields) - set(fields) == set(b.fields) - set(fields),
-                            *[frame_equal(I, a.fields[f2], b.fields[f2], set()) for f2 in a.fields
-                              if f2 not in fields and f2 in b.fields])
-            else:
-                same = frame_equal(I, a, b)
-            if same is not True:
-                st.add_vc(f"loop{k}.frame.{nm}", 'frame', same, {'level': 'sup', 'function': qn, 'line': node.lineno,
-                                                                  'except': fields})
-        st.add_vc(f"loop{k}.frame", 'frame', True, {'level': 'sup', 'function': qn, 'line': node.lineno})
+        _loop_frame_vcs(I, env, visible, before, modified + tnames, heap_mod, k, qn, node, inv.get('same_object', ()))
         raise _PathEnd()
     # loop finished: all iterations done
     st.assume(zi == L.n)
